@@ -9,7 +9,7 @@
 EXTENDS Attrs, TLC, Json, IOUtils
 VARIABLE l
 Trace == ndJsonDeserialize(IOEnv.TRACE_FILE)
-Keys == {"foo", "bar", "name"}
+Keys == {"foo", "_bar", "name"}     \* an ordinary, an underscore-prefixed and a class-defined attribute name
 AliveOf(s) == SetOf(s.alive)
 \* reconstruct `own` of the ordinary nodes from what they read (links own nothing)
 OwnOf(s) == [n \in AliveOf(s) |-> IF s.tgt[n] # Nil THEN [x \in {} |-> "1"]
